@@ -214,11 +214,17 @@ def p_fault(_=None):
         s = mpc.sum(x)
         audit(s)                                # dies inside its task, at a schedule-dependent moment
         y = s * s
+        # no barrier: the main program resumes (on a message from ONE party; the sender itself at once) before or after
+        # the death of audit (which needs shares from ALL parties), differently at different parties
+        await mpc.transfer(7, senders=len(mpc.parties) - 1)
+        r0 = await mpc.output(y)
         z = [a * a + 1 for a in x]
+        r1 = await mpc.output(mpc.prod(z))
+        w = mpc.max(z)
+        r2 = await mpc.output(w)
         await mpc.barrier()
-        w = mpc.prod(z)
-        r = await mpc.output([y, w, mpc.max(z)])
-        return [int(v) for v in r]
+        r3 = await mpc.output(w * s)
+        return [int(v) for v in (r0, r1, r2, r3)]
     prog.expected_exc = (InjectedFault,)
     return prog
 
